@@ -240,7 +240,7 @@ def _kw(spec):
     return kw
 
 
-POINT_ROUTES = ["lists", "ndarray", "tuples", "df", "df_offset", "df_perm", "df_str", "df_cols", "df_branchcol", "df_boolbranch"]
+POINT_ROUTES = ["lists", "ndarray", "tuples", "df", "df_offset", "df_perm", "df_str", "df_dup", "df_cols", "df_branchcol", "df_boolbranch"]
 
 
 def build_point(spec, route="df", branch="explicit"):
@@ -283,6 +283,8 @@ def build_point(spec, route="df", branch="explicit"):
         df.index = idx
     elif route == "df_str":
         df.index = ["row%03d" % i for i in range(n)]
+    elif route == "df_dup":
+        df.index = [7] * n  # repeated row labels (e.g. several files concatenated without ignore_index)
     if route == "df_branchcol" and branch != "guess":
         df["branch"] = [int(x) for x in b]
         return pygaps.PointIsotherm(isotherm_data=df, pressure_key=pk, loading_key=lk, **kw)
